@@ -5,7 +5,9 @@
    disj g g'       : no atom of g is in g'
    last_ft outs    : the total force reported at the last step of a history (0 for the empty history)
    applied_force   : f = fb - (hideJacobian ? fj : 0), the force the variable distributes to its atoms
-   adds_fj cv      : collect_cvc_total_forces adds the Jacobian force (not when hidden and (subtracted or same-step))
+   adds_fj cv comp : collect_cvc_total_forces adds the Jacobian force (not when hidden and (subtracted or same-step or the compensating
+                     force was not applied at the step reported: comp = hidden && a bias applied a force))
+   e_apply i       : at this step some bias applies a force to the variable (f_cv_apply_force)
    eng_run         : histories of (positions, engine force field, bias force on the variable), engine convention per
                      cv_samestep, "includecv" = the engine's total force contains the forces Colvars applied. *)
 From Coq Require Import ZArith List Bool Arith Reals Lra.
@@ -179,20 +181,20 @@ Print Assumptions C07_pm1_combination.
    (the engine's own force vanishes on them), the report of step t is the applied variable force f(t-1), plus kT*jd(t-1)
    unless hidden, minus f(t-1) with subtractAppliedForce *)
 Theorem C07_inverse_lagged : forall (cell : option RV) (mass : nat -> R) (cv : colvar) (pre : list einput) (s : estate) (i1 i2 : einput),
-  cv_samestep cv = false ->
+  cv_samestep cv = false -> e_apply i1 = true ->
   Forall (fun p => forall fc, cvc_ft Rops PI cell mass (e_pos i1) (fst p) (cvc_apply Rops PI cell mass (e_pos i1) (fst p) fc) = fc) (cv_comps cv) ->
   ForallOrdPairs (fun p q => forall a, In a (cvc_atoms (fst p)) -> ~ In a (cvc_atoms (fst q))) (cv_comps cv) ->
   cv_sqnorm Rops cv <> 0 ->
   (forall a, In a (cv_atoms cv) -> e_force i1 a = vzero Rops) ->
   last_ft (snd (eng_run Rops PI cell mass cv true s (pre ++ [i1; i2]))) =
-    applied_force Rops cv (e_fb i1) (cv_fj Rops PI cell mass (e_pos i1) cv) + (if adds_fj cv then cv_fj Rops PI cell mass (e_pos i1) cv else 0)
-    - (if cv_subtract cv then applied_force Rops cv (e_fb i1) (cv_fj Rops PI cell mass (e_pos i1) cv) else 0).
+    applied_force Rops cv (e_apply i1) (e_fb i1) (cv_fj Rops PI cell mass (e_pos i1) cv) + (if adds_fj cv (cv_hide cv) then cv_fj Rops PI cell mass (e_pos i1) cv else 0)
+    - (if cv_subtract cv then applied_force Rops cv (e_apply i1) (e_fb i1) (cv_fj Rops PI cell mass (e_pos i1) cv) else 0).
 Proof. exact thm_inverse_lagged. Qed.
 Print Assumptions C07_inverse_lagged.
 
 (* f plus the temperature-weighted Jacobian term *)
 Theorem C07_inverse_lagged_jacobian : forall (cell : option RV) (mass : nat -> R) (cv : colvar) (pre : list einput) (s : estate) (i1 i2 : einput),
-  cv_samestep cv = false -> cv_hide cv = false -> cv_subtract cv = false ->
+  cv_samestep cv = false -> e_apply i1 = true -> cv_hide cv = false -> cv_subtract cv = false ->
   Forall (fun p => forall fc, cvc_ft Rops PI cell mass (e_pos i1) (fst p) (cvc_apply Rops PI cell mass (e_pos i1) (fst p) fc) = fc) (cv_comps cv) ->
   ForallOrdPairs (fun p q => forall a, In a (cvc_atoms (fst p)) -> ~ In a (cvc_atoms (fst q))) (cv_comps cv) ->
   cv_sqnorm Rops cv <> 0 ->
@@ -203,7 +205,7 @@ Print Assumptions C07_inverse_lagged_jacobian.
 
 (* Jacobian term hidden on request: the bias force alone *)
 Theorem C07_inverse_lagged_hidden : forall (cell : option RV) (mass : nat -> R) (cv : colvar) (pre : list einput) (s : estate) (i1 i2 : einput),
-  cv_samestep cv = false -> cv_hide cv = true -> cv_subtract cv = false ->
+  cv_samestep cv = false -> e_apply i1 = true -> cv_hide cv = true -> cv_subtract cv = false ->
   Forall (fun p => forall fc, cvc_ft Rops PI cell mass (e_pos i1) (fst p) (cvc_apply Rops PI cell mass (e_pos i1) (fst p) fc) = fc) (cv_comps cv) ->
   ForallOrdPairs (fun p q => forall a, In a (cvc_atoms (fst p)) -> ~ In a (cvc_atoms (fst q))) (cv_comps cv) ->
   cv_sqnorm Rops cv <> 0 ->
@@ -214,7 +216,7 @@ Print Assumptions C07_inverse_lagged_hidden.
 
 (* temperature zero: no Jacobian term *)
 Theorem C07_inverse_lagged_T0 : forall (cell : option RV) (mass : nat -> R) (cv : colvar) (pre : list einput) (s : estate) (i1 i2 : einput),
-  cv_samestep cv = false -> cv_kT cv = 0 -> cv_subtract cv = false ->
+  cv_samestep cv = false -> e_apply i1 = true -> cv_kT cv = 0 -> cv_subtract cv = false ->
   Forall (fun p => forall fc, cvc_ft Rops PI cell mass (e_pos i1) (fst p) (cvc_apply Rops PI cell mass (e_pos i1) (fst p) fc) = fc) (cv_comps cv) ->
   ForallOrdPairs (fun p q => forall a, In a (cvc_atoms (fst p)) -> ~ In a (cvc_atoms (fst q))) (cv_comps cv) ->
   cv_sqnorm Rops cv <> 0 ->
@@ -222,6 +224,15 @@ Theorem C07_inverse_lagged_T0 : forall (cell : option RV) (mass : nat -> R) (cv 
   last_ft (snd (eng_run Rops PI cell mass cv true s (pre ++ [i1; i2]))) = e_fb i1.
 Proof. exact thm_inverse_lagged_T0. Qed.
 Print Assumptions C07_inverse_lagged_T0.
+
+(* a step at which NO bias applies a force to the variable (bias asleep, switched off, deleted, none defined): nothing of Colvars is in the\n   engine's forces and no Jacobian-compensating force was applied, so the next report is the projection of the engine's forces,\n   plus the Jacobian term unless hidden (f_old = fb, normally 0, is still subtracted with subtractAppliedForce) *)
+Theorem C07_lagged_not_applied : forall (cell : option RV) (mass : nat -> R) (cv : colvar) (inc : bool) (pre : list einput) (s : estate) (i1 i2 : einput),
+  cv_samestep cv = false -> e_apply i1 = false ->
+  last_ft (snd (eng_run Rops PI cell mass cv inc s (pre ++ [i1; i2]))) =
+    cv_proj Rops PI cell mass (e_pos i1) cv (e_force i1) + (if cv_hide cv then 0 else cv_fj Rops PI cell mass (e_pos i1) cv)
+    - (if cv_subtract cv then e_fb i1 else 0).
+Proof. exact thm_lagged_not_applied. Qed.
+Print Assumptions C07_lagged_not_applied.
 
 (* same-step convention, every history: the engine's force on the variable's atoms is the distribution of a variable force f *)
 Theorem C07_inverse_same_step : forall (cell : option RV) (mass : nat -> R) (cv : colvar) (inc : bool) (pre : list einput) (s : estate) (i : einput) (f : R),
@@ -265,7 +276,7 @@ Print Assumptions C07_local_variable.
 (* reports: two histories whose step t-1 differs only by engine forces on atoms outside the variable's groups
    (and arbitrarily before t-1 and at t) report the same total force at t *)
 Theorem C07_local_report_lagged : forall (cell : option RV) (mass : nat -> R) (cv : colvar) (inc : bool) (pre pre' : list einput) (s s' : estate) (i1 i1' i2 i2' : einput),
-  cv_samestep cv = false -> e_pos i1 = e_pos i1' -> e_fb i1 = e_fb i1' ->
+  cv_samestep cv = false -> e_pos i1 = e_pos i1' -> e_fb i1 = e_fb i1' -> e_apply i1 = e_apply i1' ->
   (forall a, In a (cv_atoms cv) -> e_force i1 a = e_force i1' a) ->
   last_ft (snd (eng_run Rops PI cell mass cv inc s (pre ++ [i1; i2]))) = last_ft (snd (eng_run Rops PI cell mass cv inc s' (pre' ++ [i1'; i2']))).
 Proof. exact thm_local_report_lagged. Qed.
@@ -281,7 +292,7 @@ Print Assumptions C07_local_report_same_step.
 (* subtractAppliedForce (lagged convention, the engine's total force includes Colvars' forces): the report is the projection of the
    engine's own forces (+ Jacobian term unless hidden) whatever force Colvars applied *)
 Theorem C07_subtract_applied : forall (cell : option RV) (mass : nat -> R) (cv : colvar) (pre : list einput) (s : estate) (i1 i2 : einput),
-  cv_samestep cv = false -> cv_subtract cv = true ->
+  cv_samestep cv = false -> e_apply i1 = true -> cv_subtract cv = true ->
   Forall (fun p => forall fc, cvc_ft Rops PI cell mass (e_pos i1) (fst p) (cvc_apply Rops PI cell mass (e_pos i1) (fst p) fc) = fc) (cv_comps cv) ->
   ForallOrdPairs (fun p q => forall a, In a (cvc_atoms (fst p)) -> ~ In a (cvc_atoms (fst q))) (cv_comps cv) ->
   cv_sqnorm Rops cv <> 0 ->
@@ -292,13 +303,13 @@ Print Assumptions C07_subtract_applied.
 
 (* ... and without the option it contains the applied force of step t-1 *)
 Theorem C07_without_subtract : forall (cell : option RV) (mass : nat -> R) (cv : colvar) (pre : list einput) (s : estate) (i1 i2 : einput),
-  cv_samestep cv = false -> cv_subtract cv = false ->
+  cv_samestep cv = false -> e_apply i1 = true -> cv_subtract cv = false ->
   Forall (fun p => forall fc, cvc_ft Rops PI cell mass (e_pos i1) (fst p) (cvc_apply Rops PI cell mass (e_pos i1) (fst p) fc) = fc) (cv_comps cv) ->
   ForallOrdPairs (fun p q => forall a, In a (cvc_atoms (fst p)) -> ~ In a (cvc_atoms (fst q))) (cv_comps cv) ->
   cv_sqnorm Rops cv <> 0 ->
   last_ft (snd (eng_run Rops PI cell mass cv true s (pre ++ [i1; i2]))) =
-    cv_proj Rops PI cell mass (e_pos i1) cv (e_force i1) + applied_force Rops cv (e_fb i1) (cv_fj Rops PI cell mass (e_pos i1) cv)
-    + (if adds_fj cv then cv_fj Rops PI cell mass (e_pos i1) cv else 0).
+    cv_proj Rops PI cell mass (e_pos i1) cv (e_force i1) + applied_force Rops cv (e_apply i1) (e_fb i1) (cv_fj Rops PI cell mass (e_pos i1) cv)
+    + (if adds_fj cv (cv_hide cv) then cv_fj Rops PI cell mass (e_pos i1) cv else 0).
 Proof. exact thm_without_subtract. Qed.
 Print Assumptions C07_without_subtract.
 
@@ -308,9 +319,9 @@ Theorem C07_timing : forall (cell : option RV) (mass : nat -> R) (cv : colvar) (
   cv_samestep cv = false -> forall (pre : list einput) (s : estate),
   last_ft (snd (eng_run Rops PI cell mass cv inc s (pre ++ [i1; i2]))) =
     cv_proj Rops PI cell mass (e_pos i1) cv
-      (if inc then fadd Rops (e_force i1) (cv_apply Rops PI cell mass (e_pos i1) cv (applied_force Rops cv (e_fb i1) (cv_fj Rops PI cell mass (e_pos i1) cv))) else e_force i1)
-    + (if adds_fj cv then cv_fj Rops PI cell mass (e_pos i1) cv else 0)
-    - (if cv_subtract cv then applied_force Rops cv (e_fb i1) (cv_fj Rops PI cell mass (e_pos i1) cv) else 0).
+      (if inc then fadd Rops (e_force i1) (if e_apply i1 then cv_apply Rops PI cell mass (e_pos i1) cv (applied_force Rops cv (e_apply i1) (e_fb i1) (cv_fj Rops PI cell mass (e_pos i1) cv)) else fzero Rops) else e_force i1)
+    + (if adds_fj cv (cv_hide cv && e_apply i1) then cv_fj Rops PI cell mass (e_pos i1) cv else 0)
+    - (if cv_subtract cv then applied_force Rops cv (e_apply i1) (e_fb i1) (cv_fj Rops PI cell mass (e_pos i1) cv) else 0).
 Proof. exact thm_timing. Qed.
 Print Assumptions C07_timing.
 
@@ -425,21 +436,21 @@ Example C07_ex_pm1 : forall h sb sm kT,
 Proof. exact ex_cv_pm1. Qed.
 (* the history theorems with all premises discharged on that variable *)
 Example C07_ex_lagged_jacobian : forall pre s pos fb1 i2 kT,
-  last_ft (snd (eng_run Rops PI None ex_mass (ex_cv false false false kT) true s (pre ++ [mkEinput pos (fzero Rops) fb1; i2])))
+  last_ft (snd (eng_run Rops PI None ex_mass (ex_cv false false false kT) true s (pre ++ [mkEinput pos (fzero Rops) fb1 true; i2])))
   = fb1 + cv_fj Rops PI None ex_mass pos (ex_cv false false false kT).
 Proof. exact ex_lagged_jacobian. Qed.
 Example C07_ex_lagged_hidden : forall pre s pos fb1 i2 kT,
-  last_ft (snd (eng_run Rops PI None ex_mass (ex_cv true false false kT) true s (pre ++ [mkEinput pos (fzero Rops) fb1; i2]))) = fb1.
+  last_ft (snd (eng_run Rops PI None ex_mass (ex_cv true false false kT) true s (pre ++ [mkEinput pos (fzero Rops) fb1 true; i2]))) = fb1.
 Proof. exact ex_lagged_hidden. Qed.
 Example C07_ex_lagged_T0 : forall pre s pos fb1 i2 h,
-  last_ft (snd (eng_run Rops PI None ex_mass (ex_cv h false false 0) true s (pre ++ [mkEinput pos (fzero Rops) fb1; i2]))) = fb1.
+  last_ft (snd (eng_run Rops PI None ex_mass (ex_cv h false false 0) true s (pre ++ [mkEinput pos (fzero Rops) fb1 true; i2]))) = fb1.
 Proof. exact ex_lagged_T0. Qed.
 Example C07_ex_same_step : forall inc pre s pos fb f h sb kT,
   last_ft (snd (eng_run Rops PI None ex_mass (ex_cv h sb true kT) inc s
-                  (pre ++ [mkEinput pos (cv_apply Rops PI None ex_mass pos (ex_cv h sb true kT) f) fb])))
+                  (pre ++ [mkEinput pos (cv_apply Rops PI None ex_mass pos (ex_cv h sb true kT) f) fb true])))
   = f + (if h then 0 else cv_fj Rops PI None ex_mass pos (ex_cv h sb true kT)).
 Proof. exact ex_same_step. Qed.
 Example C07_ex_subtract : forall pre s pos F fb1 i2 h kT,
-  last_ft (snd (eng_run Rops PI None ex_mass (ex_cv h true false kT) true s (pre ++ [mkEinput pos F fb1; i2])))
+  last_ft (snd (eng_run Rops PI None ex_mass (ex_cv h true false kT) true s (pre ++ [mkEinput pos F fb1 true; i2])))
   = cv_proj Rops PI None ex_mass pos (ex_cv h true false kT) F + (if h then 0 else cv_fj Rops PI None ex_mass pos (ex_cv h true false kT)).
 Proof. exact ex_subtract. Qed.
